@@ -848,7 +848,7 @@ Section ReaderInv.
     destruct (pend r) as [[c p]|]; [|now inversion H; subst].
     assert (Hr0 : PathInv {| wfp := wfp r; pfw := pfw r; mvf := mvf r; calls := calls r; pend := None |}).
     { destruct Hi as [P1 P2 P3 P4]. constructor; cbn; eauto. intros ? ? Hx; discriminate Hx. }
-    destruct (is_moved_to (k_mask e) && N.eqb (k_cookie e) c); [now inversion H; subst|].
+    destruct (is_moved_to (k_mask e) && N.eqb (k_cookie e) c && amem N.eqb (k_wd e) (pfw r)); [now inversion H; subst|].
     eapply forget_tree_inv; eauto.
   Qed.
 
@@ -1095,7 +1095,7 @@ Section ReaderQueue.
     intros Hk H. unfold settle_pending in H.
     destruct (c_fix_moveout C); [|now inversion H; subst].
     destruct (pend r) as [[c p]|]; [|now inversion H; subst].
-    destruct (is_moved_to (k_mask e) && N.eqb (k_cookie e) c); [now inversion H; subst|].
+    destruct (is_moved_to (k_mask e) && N.eqb (k_cookie e) c && amem N.eqb (k_wd e) (pfw r)); [now inversion H; subst|].
     eapply forget_tree_kq; eauto.
   Qed.
 
@@ -1728,3 +1728,82 @@ Definition h_ : list action :=
    AOp (Rename (rt_ ++ relsuffix [eacute_]) (rt_ ++ relsuffix [zhong_])); ARead 10; ATick 100;
    AEmit; AEmit; AEmit; AEmit].
 
+
+(* ================================================================== repair F10: a directory that left the tree is forgotten *)
+Lemma aremove_notin (q : bytes) (w : N) m : ~ In (q, w) (aremove beqb q m).
+Proof.
+  induction m as [|[a b] m IH]; cbn; [tauto|]. destruct (beqb q a) eqn:E; [exact IH|].
+  intros [H|H]; [inversion H; subst; rewrite beqb_refl in E; discriminate | now apply IH].
+Qed.
+
+Lemma alookup_none_notin (q : bytes) (w : N) m : alookup beqb q m = None -> ~ In (q, w) m.
+Proof.
+  induction m as [|[a b] m IH]; cbn; [tauto|]. destruct (beqb q a) eqn:E; [discriminate|].
+  intros H [Hin|Hin]; [inversion Hin; subst; rewrite beqb_refl in E; discriminate | now apply IH].
+Qed.
+
+Lemma forget_tree_wfp_sub p : forall keys r k r' k',
+  forget_tree keys p r k = (r', k') -> forall x, In x (wfp r') -> In x (wfp r).
+Proof.
+  induction keys as [|[q0 x0] keys IH]; intros r k r' k' H x Hx; cbn [forget_tree] in H.
+  - now inversion H; subst.
+  - destruct (beqb q0 p || starts (p ++ [sep]) q0); [|eauto].
+    destruct (alookup beqb q0 (wfp r)) as [wd|]; [|eauto].
+    destruct (alookup N.eqb wd (pfw r)) as [q'|]; [destruct (beqb q' q0)|];
+      eapply IH in H; try exact Hx; cbn in H; eapply in_aremove; exact H.
+Qed.
+
+(* every key of the snapshot that is the path or lies below it is gone afterwards *)
+Lemma forget_tree_gone p : forall keys r k r' k',
+  forget_tree keys p r k = (r', k') ->
+  forall q w x, In (q, w) (wfp r') -> In (q, x) keys -> beqb q p || starts (p ++ [sep]) q = false.
+Proof.
+  induction keys as [|[q0 x0] keys IH]; intros r k r' k' H q w x Hq Hk; [contradiction|].
+  destruct (beqb q p || starts (p ++ [sep]) q) eqn:Em; [exfalso | reflexivity].
+  cbn [forget_tree] in H. destruct Hk as [Hk|Hk].
+  - inversion Hk; subst q0 x0. rewrite Em in H.
+    destruct (alookup beqb q (wfp r)) as [wd|] eqn:El.
+    + assert (Hsub : In (q, w) (aremove beqb q (wfp r))).
+      { destruct (alookup N.eqb wd (pfw r)) as [q'|]; [destruct (beqb q' q)|];
+          eapply forget_tree_wfp_sub in H; try exact Hq; exact H. }
+      exact (aremove_notin _ _ _ Hsub).
+    + eapply forget_tree_wfp_sub in H; [|exact Hq]. exact (alookup_none_notin _ _ _ El H).
+  - assert (Hf : beqb q p || starts (p ++ [sep]) q = false).
+    { destruct (beqb q0 p || starts (p ++ [sep]) q0); [|eapply IH; eauto].
+      destruct (alookup beqb q0 (wfp r)) as [wd|]; [|eapply IH; eauto].
+      destruct (alookup N.eqb wd (pfw r)) as [q'|]; [destruct (beqb q' q0)|]; eapply IH; eauto. }
+    congruence.
+Qed.
+
+(* The head of the loop body, current code: when the record after a directory IN_MOVED_FROM is not its IN_MOVED_TO on a known descriptor, no
+   key of _wd_for_path is the moved-out path or lies below it any more, and nothing is remembered *)
+Theorem settle_pending_forgotten C r k e c p r' k' :
+  c_fix_moveout C = true -> pend r = Some (c, p) ->
+  is_moved_to (k_mask e) && N.eqb (k_cookie e) c && amem N.eqb (k_wd e) (pfw r) = false ->
+  settle_pending C r k e = (r', k') ->
+  pend r' = None /\
+  (forall x, In x (wfp r') -> In x (wfp r)) /\
+  (forall q w, In (q, w) (wfp r') -> beqb q p || starts (p ++ [sep]) q = false).
+Proof.
+  intros Hf Hp Hm H. rewrite (settle_pending_forget C r k e c p Hf Hp Hm) in H.
+  split; [|split].
+  - apply forget_tree_sub in H as (_ & _ & _ & H). exact H.
+  - intros x Hx. eapply forget_tree_wfp_sub in H; [|exact Hx]. exact H.
+  - intros q w Hq. eapply forget_tree_gone; [exact H | exact Hq|].
+    eapply forget_tree_wfp_sub in H; [|exact Hq]. exact H.
+Qed.
+
+(* data of the move-out example: /w watched, /o outside *)
+Definition out_ : bytes := [47; 111]%N.               (* "/o" *)
+Definition Pm_ (fix_moveout : bool) : pcfg :=
+  {| pc_reader := {| c_recursive := true; c_mask := WATCHDOG_ALL; c_root := rt_; c_fix_ignored := true;
+                     c_fix_movein := true; c_fix_simulate := true; c_fix_moveout := fix_moveout; c_faults := [] |};
+     pc_full := false; pc_filter := None; pc_delay := 5 |}.
+Definition wm_ : world :=
+  {| w_fs := [{| f_path := rt_; f_ino := 1; f_dir := true |}; {| f_path := out_; f_ino := 2; f_dir := true |}];
+     w_next_ino := 3 |}.
+Definition hm_ : list action :=
+  [AOp (Mkdir (rt_ ++ relsuffix [eacute_])); ARead 10;
+   AOp (Rename (rt_ ++ relsuffix [eacute_]) (out_ ++ relsuffix [eacute_])); ARead 10;
+   AOp (Touch (out_ ++ relsuffix [eacute_; xff_])); ARead 10; ATick 100;
+   AEmit; AEmit; AEmit; AEmit; AEmit; AEmit; AEmit; AEmit].
